@@ -612,7 +612,7 @@ def check_callbacks(chk):
                     chk.bad('C09.I', lf.mod, lf.pyname, norm(node)[:100],
                             f'a callback is invoked with {norm(node.args[1])} instead of the run\'s options: script functions used as callbacks are counted on another '
                             f'object (or not at all) and run with other globals', node=node)
-    if n < 4:
+    if n < 2:
         raise Unrecognised('C09.I', f'only {n} library callback call sites found', None)
 
 
